@@ -27,26 +27,34 @@ def linspace (start stop : Rat) (n : Nat) : List Rat :=
 /-- number of steps of `makeLinearlyVaryingSequence` -/
 def linCount (start stop step : Rat) : Int := Gen.linCount start stop step
 
+/-- lift a state-transforming call that may raise into `Except` -/
+def _root_.BB.Res.toExcept {σ : Type} (r : Res σ) : Except Err σ :=
+  match r.err with
+  | some er => .error er
+  | none => .ok r.st
+
+/-- the loop of `makeLinearlyVaryingSequence`: for the `ind`-th value, copy the base element,
+    apply the change, add it at position `ind` -/
+def linLoop (base : Element) (ch : Chan) (name : String) (arg : Val) :
+    List Rat → Nat → Sequence → Except Err Sequence
+  | [], _, s => .ok s
+  | v :: vs, ind, s =>
+    match (applyChange base ch name arg (.num v)).toExcept with
+    | .error er => .error er
+    | .ok e =>
+      match (s.addElement ((ind + 1 : Nat) : Int) e).toExcept with
+      | .error er => .error er
+      | .ok s' => linLoop base ch name arg vs (ind + 1) s'
+
 /-- `makeLinearlyVaryingSequence(baseelement, channel, name, arg, start, stop, step)` -/
 def makeLinearlyVaryingSequence (base : Element) (ch : Chan) (name : String) (arg : Val)
-    (start stop step : Rat) : Except Err Sequence := do
-  let sr ← base.getSR
-  let mut s : Sequence := ({} : Sequence).setSR sr
-  if step = 0 then throw Err.value     -- ZeroDivisionError
-  let n := linCount start stop step
-  if n < 0 then throw Err.value        -- linspace refuses a negative count
-  let mut ind : Nat := 0
-  for v in linspace start stop n.toNat do
-    ind := ind + 1
-    let r := applyChange base ch name arg (.num v)
-    match r.err with
-    | some er => throw er
-    | none =>
-      let r2 := s.addElement (ind : Int) r.st
-      match r2.err with
-      | some er => throw er
-      | none => s := r2.st
-  pure s
+    (start stop step : Rat) : Except Err Sequence :=
+  match base.getSR with
+  | .error er => .error er
+  | .ok sr =>
+    if step = 0 then .error .value        -- ZeroDivisionError
+    else if linCount start stop step < 0 then .error .value   -- linspace refuses a negative count
+    else linLoop base ch name arg (linspace start stop (linCount start stop step).toNat) 0 (({} : Sequence).setSR sr)
 
 def allSameLen (ls : List Nat) : Bool :=
   match ls with
@@ -62,51 +70,92 @@ def modifyElement (s : Sequence) (pos : Int) (f : Element → Res Element) : Res
   | some (.sub _) => ⟨s, some .attr⟩
   | none => ⟨s, some .key⟩
 
+/-- add the base element at positions `k+1 .. k+n` -/
+def addCopies (base : Element) : Nat → Nat → Sequence → Except Err Sequence
+  | 0, _, s => .ok s
+  | n + 1, k, s =>
+    match (s.addElement ((k + 1 : Nat) : Int) base).toExcept with
+    | .error er => .error er
+    | .ok s' => addCopies base n (k + 1) s'
+
+/-- the inner loop over the values of one variation: the value with index `m` goes to the
+    element at position `m + 1` -/
+def applyVals (v : Variation) : List Val → Nat → Sequence → Except Err Sequence
+  | [], _, s => .ok s
+  | val :: rest, m, s =>
+    match (modifyElement s ((m + 1 : Nat) : Int) (fun e => applyChange e v.chan v.name v.arg val)).toExcept with
+    | .error er => .error er
+    | .ok s' => applyVals v rest (m + 1) s'
+
+/-- the outer loop over the variations -/
+def applyVars : List Variation → Sequence → Except Err Sequence
+  | [], s => .ok s
+  | v :: vs, s =>
+    match applyVals v v.vals 0 s with
+    | .error er => .error er
+    | .ok s' => applyVars vs s'
+
+/-- the input validation shared by the two sweep tools: equal list lengths, equal numbers of values;
+    returns the number of steps -/
+def sweepSteps (lens : List Nat) (vars : List Variation) : Except Err Nat :=
+  if !allSameLen lens then .error .value
+  else match vars with
+    | [] => .error .index            -- `noofvals[0]` of an empty list
+    | v :: rest => if rest.any (fun w => w.vals.length ≠ v.vals.length) then .error .value else .ok v.vals.length
+
 /-- `makeVaryingSequence(baseelement, channels, names, args, iters)`;
     the four lists arrive as their lengths plus the zipped variations -/
 def makeVaryingSequence (base : Element) (lens : List Nat) (vars : List Variation) :
-    Except Err Sequence := do
-  let m ← base.validate
-  if !allSameLen lens then throw Err.value
-  let noofvals := vars.map (fun v => v.vals.length)
-  let n0 ← match noofvals.head? with | some n => pure n | none => throw Err.index
-  if noofvals.any (· ≠ n0) then throw Err.value
-  let mut s : Sequence := ({} : Sequence).setSR m.1
-  for i in List.range n0 do
-    let r := s.addElement ((i + 1 : Nat) : Int) base
-    match r.err with
-    | some er => throw er
-    | none => s := r.st
-  for v in vars do
-    let mut mpos : Nat := 0
-    for val in v.vals do
-      mpos := mpos + 1
-      let r := modifyElement s (mpos : Int) (fun e => applyChange e v.chan v.name v.arg val)
-      match r.err with
-      | some er => throw er
-      | none => s := r.st
-  if !(← s.checkConsistency) then throw Err.consistency
-  pure s
+    Except Err Sequence :=
+  match base.validate with
+  | .error er => .error er
+  | .ok m =>
+    match sweepSteps lens vars with
+    | .error er => .error er
+    | .ok n0 =>
+      match addCopies base n0 0 (({} : Sequence).setSR m.1) with
+      | .error er => .error er
+      | .ok s0 =>
+        match applyVars vars s0 with
+        | .error er => .error er
+        | .ok s1 =>
+          match s1.checkConsistency with
+          | .error er => .error er
+          | .ok false => .error .consistency
+          | .ok true => .ok s1
+
+/-- the changes of one step of `repeatAndVarySequence`, applied to a copy of the sequence -/
+def applyStep (step : Nat) : List (Int × Variation) → Sequence → Except Err Sequence
+  | [], s => .ok s
+  | (pos, v) :: rest, s =>
+    match v.vals[step]? with
+    | none => .error .index
+    | some val =>
+      match (modifyElement s pos (fun e => applyChange e v.chan v.name v.arg val)).toExcept with
+      | .error er => .error er
+      | .ok s' => applyStep step rest s'
+
+/-- the loop over the steps: vary a copy, append it -/
+def repeatLoop (seq : Sequence) (pv : List (Int × Variation)) : List Nat → Sequence → Except Err Sequence
+  | [], acc => .ok acc
+  | step :: rest, acc =>
+    match applyStep step pv seq.copy with
+    | .error er => .error er
+    | .ok temp =>
+      match acc.add temp with
+      | .error er => .error er
+      | .ok acc' => repeatLoop seq pv rest acc'
 
 /-- `repeatAndVarySequence(seq, poss, channels, names, args, iters)` -/
 def repeatAndVarySequence (seq : Sequence) (lens : List Nat) (poss : List Int)
-    (vars : List Variation) : Except Err Sequence := do
-  if !(← seq.checkConsistency) then throw Err.consistency
-  if !allSameLen lens then throw Err.value
-  let noofvals := vars.map (fun v => v.vals.length)
-  let n0 ← match noofvals.head? with | some n => pure n | none => throw Err.index
-  if noofvals.any (· ≠ n0) then throw Err.value
-  let mut newseq : Sequence := { awgspecs := seq.awgspecs }
-  for step in List.range n0 do
-    let mut temp := seq.copy
-    for (pos, v) in poss.zip vars do
-      let val ← match v.vals[step]? with | some x => pure x | none => throw Err.index
-      let r := modifyElement temp pos (fun e => applyChange e v.chan v.name v.arg val)
-      match r.err with
-      | some er => throw er
-      | none => temp := r.st
-    newseq ← newseq.add temp
-  pure newseq
+    (vars : List Variation) : Except Err Sequence :=
+  match seq.checkConsistency with
+  | .error er => .error er
+  | .ok false => .error .consistency
+  | .ok true =>
+    match sweepSteps lens vars with
+    | .error er => .error er
+    | .ok n0 => repeatLoop seq (poss.zip vars) (List.range n0) { awgspecs := seq.awgspecs }
 
 end Tools
 end BB
